@@ -374,7 +374,7 @@ func runC17Grid(c *runCtx, e *emitter) {
 			lengths = append(lengths, l)
 		}
 	}
-	leads := []string{"", " ", "   ", strings.Repeat(" ", 40), "\t \n"}
+	leads := []string{"", " ", "   ", strings.Repeat(" ", 40), "\t \n", "\v ", " \f\v  \r"}
 	trails := []string{"", "  ", " \n"}
 	pads := []int{0, 7, 12}
 	msgs := []string{"Bad Expression", "", "Expect token ) but got EOF", "quote \" and\nnewline"}
